@@ -1214,6 +1214,10 @@ class DigitalWaveform(Generic[TDigitalState]):
                 raise create_datatype_mismatch_error(
                     "input waveform", waveform.dtype, "waveform", self.dtype
                 )
+            if waveform.signal_count != self.signal_count:
+                raise create_signal_count_mismatch_error(
+                    "input waveform", waveform.signal_count, "waveform", self.signal_count
+                )
 
         new_timing = self._timing
         for waveform in waveforms:
@@ -1291,11 +1295,11 @@ class DigitalWaveform(Generic[TDigitalState]):
             raise create_irregular_timestamp_count_mismatch_error(
                 len(self._timing._timestamps), "input array length", sample_count, reversed=True
             )
-        signal_count = arg_to_uint("signal count", signal_count, array_signal_count)
+        signal_count = arg_to_uint("signal count", signal_count, self.signal_count)
 
         if signal_count != array_signal_count:
             raise create_signal_count_mismatch_error(
-                "input array", signal_count, "waveform", array_signal_count
+                "input array", array_signal_count, "waveform", signal_count
             )
 
         if copy:
